@@ -18,7 +18,7 @@ type Engine struct{ T *testing.T }
 
 func (Engine) Name() string { return "provsim" }
 
-func (Engine) Properties() []string { return []string{"C13", "C15"} }
+func (Engine) Properties() []string { return []string{"C10", "C13", "C14", "C15", "C20"} }
 
 func (e Engine) Execute(r *core.Run) (v *core.Violation) {
 	var fn func(*core.Run) *core.Violation
@@ -27,6 +27,10 @@ func (e Engine) Execute(r *core.Run) (v *core.Violation) {
 		fn = runC13
 	case "C15":
 		fn = runC15
+	case "C14":
+		fn = runC14
+	case "C20", "C10":
+		fn = runC20
 	default:
 		panic("provsim: no scenario for " + r.Property)
 	}
@@ -67,6 +71,27 @@ func (Engine) Describe(property string) core.Description {
 		d.RequiredProbes = []string{"probe:event-while-call-in-flight", "probe:event-during-Cluster.Reserve", "probe:event-during-Tx.Broadcast", "probe:event-during-Query.Group",
 			"probe:event-during-Pricing.CalculatePrice", "probe:lease-won-announced", "probe:reservation-obligation", "probe:bid-obligation", "probe:catchup-found-existing-bid",
 			"probe:price-above-max", "fault:provider-crash-restart", "fault:fail-Cluster.Reserve", "fault:fail-Tx.Broadcast", "fault:fail-Query.Group", "fault:fail-Pricing.CalculatePrice", "fault:event-lost"}
+	case "C14":
+		d.Rule = "Each run starts the real cluster.NewService (service loop, inventory, hostname service, deployment managers, monitors, withdrawal) over a real bus with a scripted cluster client whose Deploy/TeardownLease/" +
+			"Inventory/LeaseStatus calls park until the seeded scheduler completes or fails them; 1-2 leases; 10-44 stimuli, one per quiescent point: ManifestReceived (first and updates), EventLeaseClosed, completion ok/error of any parked call, " +
+			"clock jumps (health checks, teardown back-off, inventory poll), LeaseWithdrawNow; then a fair drain (no more faults) within a bounded number of rounds."
+		d.Real = append(d.Real, "provider/cluster service, deploymentManager, deploymentMonitor, deploymentWithdrawal, inventoryService, hostnameService", "avast/retry-go")
+		d.Stub = []string{"cluster.Client (Deploy/TeardownLease/Inventory/LeaseStatus parked, interval log)", "chain client (broadcasts parked)"}
+		d.RequiredProbes = []string{"probe:update-during-deploy", "probe:update-when-idle", "probe:close-during-deploy", "probe:close-before-any-manifest", "probe:teardown-obligation-met",
+			"probe:latest-manifest-obligation-met", "probe:hostnames-release-checked", "fault:fail-Cluster.Deploy", "fault:fail-Cluster.TeardownLease"}
+	case "C20", "C10":
+		d.Rule = "Each run starts the real manifest.NewService (service loop, per-deployment manager, watchdog) over a real bus; a deployment with 1-2 groups whose on-chain version is the hash of a manifest derived from the groups " +
+			"(records split into several services, reordered); 10-39 stimuli, one per quiescent point: LeaseWon, Submit from independent client tasks (valid, stale version, changed resources/count/endpoints, extra service, empty; some with deadlines), " +
+			"completion ok/error of the parked deployment fetch, EventDeploymentUpdated (new version), EventLeaseClosed, EventDeploymentClosed, clock jumps (watchdog, deadlines); then a fair drain."
+		d.Real = append(d.Real, "provider/manifest service, manager, watchdog", "validation.ValidateManifest / ValidateManifestWithDeployment", "sdl.ManifestVersion", "cluster.SimpleHostnames")
+		d.Stub = []string{"chain client: Query.Deployment parked (answer = chain model at completion time), ActiveLeasesForProvider/Group direct, broadcasts parked"}
+		if property == "C20" {
+			d.RequiredProbes = []string{"probe:submit-accepted", "probe:submit-rejected", "probe:announcements", "probe:submit-while-fetch-in-flight", "probe:submit-while-another-outstanding",
+				"probe:submit-without-lease", "probe:lease-won-while-submit-outstanding", "probe:lease-removed-while-submit-outstanding", "probe:version-update-while-fetch-in-flight", "fault:fail-Query.Deployment"}
+		} else {
+			d.RequiredProbes = []string{"probe:submit-accepted", "probe:submit-rejected", "probe:manifest-splits-a-record", "probe:manifest-reordered", "probe:hash-checks", "probe:version-update-while-fetch-in-flight"}
+			d.Assumptions = append(d.Assumptions, "input-dominated property: the structural mutator samples manifests; the simulated part is the timing of version updates, fetches and lease events around the validation")
+		}
 	case "C15":
 		d.Rule = "Layer 1: sequential histories of 10-49 operations (publish unique event, subscribe, clone, read one / verify nothing to read, close subscriber, close bus) on the real pubsub bus, " +
 			"each operation run on its own goroutine and required to return by the next quiescent point, compared operation by operation with a per-subscriber queue model."
